@@ -431,8 +431,56 @@ func runReaderDiscard(s scenario) error {
 	return s.checkErr(rd.Discard())
 }
 
+// entry: wsutil.NextReader per message (a fresh Reader each time; interleaved
+// control frames are dropped without notice, as documented).
+func runNextReader(s scenario) error {
+	src := tx.NewSrc(ref.EncodeAll(s.Frames), s.Chunks)
+	valid := s.Frames[:s.Bad]
+	os := openStart(valid)
+	idle := 2*len(s.Frames) + 4
+	for _, e := range ref.Events(valid[:os]) {
+		if e.Kind == "ctl" && e.Intermediate {
+			continue
+		}
+		_, r, err := wsutil.NextReader(src, s.state())
+		if err != nil {
+			return fmt.Errorf("NextReader before %v (valid part of the stream): %v", e, err)
+		}
+		p, err := readUntil(r, s.BufSize, idle)
+		if err != io.EOF {
+			return fmt.Errorf("NextReader: reading %v (valid part of the stream): %v", e, err)
+		}
+		if !bytes.Equal(p, e.Payload) {
+			return fmt.Errorf("NextReader: %v delivered as %d bytes %x", e, len(p), p)
+		}
+	}
+	_, r, err := wsutil.NextReader(src, s.state())
+	if os == len(valid) {
+		return s.checkErr(err)
+	}
+	if err != nil {
+		return fmt.Errorf("NextReader for the open message: %v", err)
+	}
+	var want []byte
+	for _, f := range valid[os:] {
+		if !ref.IsControl(f.H.Op) {
+			want = append(want, f.Payload...)
+		}
+	}
+	p, err := readUntil(r, s.BufSize, idle)
+	if e := s.checkErr(err); e != nil {
+		return e
+	}
+	if !bytes.Equal(p, want) {
+		return fmt.Errorf("NextReader: before the error %d bytes were delivered for the open message (%x), the valid fragments carry %d (%x)", len(p), p, len(want), want)
+	}
+	return nil
+}
+
 func run(s scenario) error {
 	switch s.Entry {
+	case "NextReader":
+		return runNextReader(s)
 	case "ReadText", "ReadBinary":
 		return runReadFiltered(s)
 	case "Reader+Discard":
@@ -564,7 +612,7 @@ func TestRuleViolation(t *testing.T) {
 	hx.Check(t, 8, func(t *rapid.T) {
 		var s scenario
 		var masked bool
-		s.Entry = rapid.SampledFrom([]string{"Reader", "Reader", "Reader+Discard", "ReadMessage", "ReadData", "ReadText", "ReadBinary"}).Draw(t, "entry")
+		s.Entry = rapid.SampledFrom([]string{"Reader", "Reader", "Reader+Discard", "ReadMessage", "ReadData", "ReadText", "ReadBinary", "NextReader"}).Draw(t, "entry")
 		s.Side, masked = drawSide(t)
 		if (s.Entry == "ReadData" || s.Entry == "ReadText" || s.Entry == "ReadBinary") && s.Side == ref.SideNone {
 			s.Side, masked = ref.SideServer, true
@@ -672,7 +720,7 @@ func TestSmallScopeExhaustive(t *testing.T) {
 									}
 									frames := append(append([]ref.Frame(nil), prefix...), ref.Frame{H: h, Payload: markerPayload(ln)},
 										ref.Frame{H: ref.Header{Fin: true, Op: ref.OpText, Masked: masked}, Payload: markerPayload(3)})
-									for _, entry := range []string{"Reader", "Reader+Discard", "ReadMessage", "ReadData", "ReadText", "ReadBinary"} {
+									for _, entry := range []string{"Reader", "Reader+Discard", "ReadMessage", "ReadData", "ReadText", "ReadBinary", "NextReader"} {
 										if ext && (entry == "ReadText" || entry == "ReadBinary") {
 											continue // these helpers hard-wire the plain side state
 										}
